@@ -942,6 +942,41 @@ func stallCase(r *core.Rand) []string {
 	return append(ops, "drained")
 }
 
+// conformingSenderCase: one endpoint that honours its send windows sends padded DATA in volume - 380..560
+// frames, pad lengths 0..255 (mostly large), 2-4 x 65535 flow-controlled bytes in total - on 1..3 streams while
+// the receiver keeps granting; it must never be stalled. (Payloads are small: what reaches the receiver stays
+// far below its windows.)
+func conformingSenderCase(r *core.Rand) []string {
+	e := r.Intn(2)
+	en, on := epName(e), epName(1-e)
+	var ops []string
+	ns := 1 + r.Intn(3)
+	for i := 0; i < ns; i++ {
+		ops = append(ops, fmt.Sprintf("headers %s %d 0 1 - %s", en, 2*i+1, BytesTok(LitEncode([]Field{{":path", "/up"}}))))
+	}
+	n := 380 + r.Intn(181)
+	for i := 0; i < n; i++ {
+		sid := 2*r.Intn(ns) + 1
+		pad := fmt.Sprint(200 + r.Intn(56))
+		switch r.Intn(8) {
+		case 0:
+			pad = fmt.Sprint(r.Intn(256))
+		case 1:
+			pad = "-"
+		}
+		pl := "-"
+		if k := r.Intn(30); k > 0 {
+			pl = BytesTok(r.Bytes(k))
+		}
+		ops = append(ops, fmt.Sprintf("cdata %s %d 0 %s %s", en, sid, pad, pl))
+		if i%97 == 96 { // the receiver keeps granting
+			ops = append(ops, fmt.Sprintf("wu %s 0 %d", on, 1<<16), fmt.Sprintf("wu %s %d %d", on, sid, 1<<16))
+		}
+	}
+	core.Count("gen:conforming-sender-cases")
+	return append(ops, "drained")
+}
+
 // Gen is the generator shared by C08 and C09.
 func Gen(profile string, r *core.Rand, tier string, emit func([]string)) {
 	n := 260
@@ -962,6 +997,9 @@ func Gen(profile string, r *core.Rand, tier string, emit func([]string)) {
 	}
 	for i := 0; i < n/25; i++ {
 		emit(stallCase(r.Fork()))
+	}
+	for i := 0; i < 2+n/500; i++ {
+		emit(conformingSenderCase(r.Fork()))
 	}
 	if profile == "C08" { // the HPACK table model against x/net's decoder and encoder
 		for i := 0; i < n/3; i++ {
